@@ -95,16 +95,21 @@ Definition leader_change (self : string) (c : config) (ch : change) : option con
 
 (* ---------------- Store ---------------- *)
 Record params := mk_params { self : string; expect : N; reap_timeout : N; reap_ro_timeout : N }.   (* own raft id; timeouts in ms, 0 = disabled *)
-Record state := mk_state { cfg : config; boot : bool; notifying : list (string * string) }.
-Definition init : state := mk_state [] false [].
-Definition set_cfg (st : state) (c : config) : state := mk_state c (boot st) (notifying st).
+(* cfg is the replicated configuration; boot and notifying are local to node `self p`, the node that is notified and
+   bootstrapped; lead = the node leadership was last transferred to (None: `self p` still serves).  Join, Remove and the
+   reaper run on the serving node and decide from the CURRENT configuration, whoever was leader when it was changed. *)
+Record state := mk_state { cfg : config; boot : bool; notifying : list (string * string); lead : option string }.
+Definition init : state := mk_state [] false [] None.
+Definition set_cfg (st : state) (c : config) : state := mk_state c (boot st) (notifying st) (lead st).
+Definition serving (p : params) (st : state) : string := match lead st with Some l => l | None => self p end.
 
 Inductive event :=
 | ENotify (id addr : string) (resolves has_leader : bool)
 | EBootstrap (servers : list (string * string))
 | EJoin (id addr : string) (voter resolves : bool)
 | ERemove (id : string)
-| EReap (id : string) (silence : N).          (* FailedHeartbeatObservation: peer, time since last contact (ms) *)
+| EReap (id : string) (silence : N)           (* FailedHeartbeatObservation on the serving node: peer, time since last contact (ms) *)
+| ELead (id : string).                        (* Store.Stepdown(wait, id) on the serving node: leadership transfer to node id *)
 
 Inductive result := ROk | RIgnored | RErr | RTimeout.
 
@@ -124,10 +129,10 @@ Definition notify (p : params) (st : state) (id addr : string) (resolves has_lea
   else if negb resolves then (st, RErr)
   else
     let nn := notifying st ++ [(id, addr)] in
-    if (N.of_nat (List.length nn) <? expect p)%N then (mk_state (cfg st) (boot st) nn, ROk)
+    if (N.of_nat (List.length nn) <? expect p)%N then (mk_state (cfg st) (boot st) nn (lead st), ROk)
     else
       let c := match raft_bootstrap (self p) (cfg st) (voters_of nn) with Some c => c | None => cfg st end in
-      (mk_state c true nn, ROk).
+      (mk_state c true nn (lead st), ROk).
 
 (* Store.Join: the loop runs over the configuration read before the loop (snap); removals act on the live one (cur) *)
 Inductive scan := SIgnored | SFailed (cur : config) | SDone (cur : config) (change_role : bool).
@@ -149,16 +154,16 @@ Fixpoint join_scan (me : string) (snap cur : config) (id addr : string) (voter c
   end.
 
 Definition join (p : params) (st : state) (id addr : string) (voter resolves : bool) : state * result :=
-  if negb (has_vote (cfg st) (self p)) then (st, RErr)        (* raft.State() != Leader *)
+  if negb (has_vote (cfg st) (serving p st)) then (st, RErr)        (* raft.State() != Leader *)
   else if negb resolves then (st, RErr)
-  else match join_scan (self p) (cfg st) (cfg st) id addr voter false with
+  else match join_scan (serving p st) (cfg st) (cfg st) id addr voter false with
        | SIgnored => (st, RIgnored)
        | SFailed c => (set_cfg st c, RErr)
        | SDone c change_role =>
            let ch := if voter then AddVoter id addr
                      else if change_role then DemoteVoter id
                      else AddNonvoter id addr in
-           match leader_change (self p) c ch with
+           match leader_change (serving p st) c ch with
            | Some c' => (set_cfg st c', ROk)
            | None => (set_cfg st c, RErr)
            end
@@ -166,7 +171,7 @@ Definition join (p : params) (st : state) (id addr : string) (voter resolves : b
 
 (* Store.Remove / remove *)
 Definition remove (p : params) (st : state) (id : string) : state * result :=
-  match leader_change (self p) (cfg st) (RemoveServer id) with
+  match leader_change (serving p st) (cfg st) (RemoveServer id) with
   | Some c => (set_cfg st c, ROk)
   | None => (st, RErr)
   end.
@@ -184,12 +189,19 @@ Definition reap (p : params) (st : state) (id : string) (silence : N) : state * 
   | None => (st, ROk)
   | Some s =>
       if reap_due p (negb (svoter s)) silence
-      then match leader_change (self p) (cfg st) (RemoveServer id) with
+      then match leader_change (serving p st) (cfg st) (RemoveServer id) with
            | Some c => (set_cfg st c, ROk)
            | None => (st, ROk)
            end
       else (st, ROk)
   end.
+
+(* Store.Stepdown to a named node: refused for the current leader and for an id that is not in the configuration;
+   raft hands leadership to a voter (a transfer to a non-voter is never generated by the driver; the model refuses it) *)
+Definition transfer (p : params) (st : state) (id : string) : state * result :=
+  if has_vote (cfg st) (serving p st) && negb (String.eqb id (serving p st)) && has_vote (cfg st) id
+  then (mk_state (cfg st) (boot st) (notifying st) (Some id), ROk)
+  else (st, RErr).
 
 Definition step (p : params) (st : state) (ev : event) : state * result :=
   match ev with
@@ -198,6 +210,7 @@ Definition step (p : params) (st : state) (ev : event) : state * result :=
   | EJoin id addr voter resolves => join p st id addr voter resolves
   | ERemove id => remove p st id
   | EReap id silence => reap p st id silence
+  | ELead id => transfer p st id
   end.
 
 (* state after a history *)
@@ -225,8 +238,11 @@ Definition result_eqb (a b : result) : bool :=
   | _, _ => false
   end.
 
-(* what the driver saw after an event: the call's answer, the leader's configuration, Store.bootstrapped *)
-Record obs := mk_obs { o_res : result; o_cfg : config; o_boot : bool }.
+(* what the driver saw after an event: the call's answer, the serving node's configuration, Store.bootstrapped of
+   node `self`, and (compared after a leadership transfer) the id of the node that is leader now *)
+Record obs := mk_obs { o_res : result; o_cfg : config; o_boot : bool; o_lead : string }.
+Definition lead_ok (p : params) (st : state) (ev : event) (o : obs) : bool :=
+  match ev with ELead _ => String.eqb (serving p st) (o_lead o) | _ => true end.
 
 (* a history on a live cluster: BootstrapExpect, ReapTimeout, ReapReadOnlyTimeout of the node that serves
    the requests, every event with what was observed after it, and the final configuration of every other
@@ -239,6 +255,7 @@ Fixpoint check_steps (p : params) (st : state) (steps : list (event * obs)) : op
   | (ev, o) :: r =>
       let sr := step p st ev in
       if result_eqb (snd sr) (o_res o) && cfg_equiv (cfg (fst sr)) (o_cfg o) && Bool.eqb (boot (fst sr)) (o_boot o)
+         && lead_ok p (fst sr) ev o
       then check_steps p (fst sr) r else None
   end.
 
